@@ -41,6 +41,12 @@ FLAVOURS = {
         "fails, stdin/stdout, text vs binary mode, encodings, an output file that already exists, relative paths); (d) exit statuses, "
         "refusal paths and which exception class comes out; (e) a change that is right for every input except one small value class. "
         "Keep it realistic and keep all 306 tests passing."),
+    8: ("This round, work like a mutation tester: make a SINGLE-TOKEN (or single-line) mutation of the kind mutation tools apply - "
+        "a relational operator (< to <=, == to !=), an off-by-one constant or index, two swapped arguments, a wrong but "
+        "same-typed variable, a dropped 'not', 'and' swapped with 'or', a removed statement or early return, a changed default - in "
+        "code the property depends on. Try candidates until you have one that (1) survives the whole test suite and (2) really "
+        "breaks the property as stated for some input. Prefer the survivor that needs the most specific input. Keep all 306 tests "
+        "passing."),
 }
 
 
